@@ -30,6 +30,7 @@ type Ctx struct {
 	PlanEntry string
 
 	Viol       *core.Violation
+	Sched      uint64 // schedule digest of a multi-task run (0: single task)
 	NonTrivial bool
 	Exports    map[string]string
 	desc       []string
@@ -188,7 +189,7 @@ func execute(p *Prop, cs *core.Case, tier, repo string, st *core.Stats, describe
 	if plan {
 		c.Export("plan-entry", c.PlanEntry)
 	}
-	out := &core.Outcome{Viol: c.Viol, Digest: c.D.Hex(), NonTrivial: c.NonTrivial, Ticks: c.Dev.Seq, Exports: c.Exports}
+	out := &core.Outcome{Viol: c.Viol, Digest: c.D.Hex(), NonTrivial: c.NonTrivial, Ticks: c.Dev.Seq, Exports: c.Exports, Sched: c.Sched}
 	if describe {
 		out.Desc = c.Desc()
 	}
